@@ -6,6 +6,7 @@
 
 extern crate tlsh;
 
+mod codecstream;
 mod genstream;
 mod util;
 
@@ -66,6 +67,12 @@ fn main() {
         "state" => genstream::stream_state(&mut out, seed, budget),
         "hist" => genstream::stream_hist(&mut out, seed, budget),
         "core" => genstream::stream_core(&mut out, seed, budget),
+        "parse" => codecstream::stream_parse(&mut out, seed, budget),
+        "parse-sweep" => codecstream::stream_parse_sweep(&mut out, seed, budget),
+        "fmt" => codecstream::stream_fmt(&mut out, seed, budget),
+        "frombin" => codecstream::stream_frombin(&mut out, seed, budget),
+        "store" => codecstream::stream_store(&mut out, seed, budget),
+        "acc" => codecstream::stream_acc(&mut out, seed, budget),
         "kat" => genstream::stream_kat(&mut out, &format!("{}/kat.txt", corpus)),
         x => {
             eprintln!("unknown stream {}", x);
